@@ -36,6 +36,12 @@ def generate():
     d("nano_alphabet", emit("str", reflect("bip_utils/addr/nano_addr.py", "NanoAddrConst", "BASE32_ALPHABET")))
     d("nano_pad_dec", emit("bytes", reflect("bip_utils/addr/nano_addr.py", "NanoAddrConst", "PAYLOAD_PAD_DEC")))
     d("nano_pad_enc", emit("str", reflect("bip_utils/addr/nano_addr.py", "NanoAddrConst", "PAYLOAD_PAD_ENC")))
+    d("nim_prefix", coinsconf("Nimiq", "addr_prefix", "str"))
+    d("nim_alphabet", emit("str", reflect("bip_utils/addr/nim_addr.py", "NimAddrConst", "BASE32_ALPHABET")))
+    d("nim_group_len", emit("nat", reflect("bip_utils/addr/nim_addr.py", "NimAddrConst", "ADDR_GROUP_LEN")))
+    d("nim_ck_enc_len", emit("nat", reflect("bip_utils/addr/nim_addr.py", "NimAddrConst", "CHECKSUM_ENC_LEN")))
+    d("nim_hash_len", emit("nat", reflect("bip_utils/addr/nim_addr.py", "NimAddrConst", "HASH_BYTE_LEN")))
+    d("nim_hash_enc_len", emit("nat", reflect("bip_utils/addr/nim_addr.py", "NimAddrConst", "HASH_ENC_LEN")))
     import bip_utils.utils.crypto as cr
     d("blake2b32_len", emit("nat", cr.Blake2b32.DigestSize()))
     d("blake2b40_len", emit("nat", cr.Blake2b40.DigestSize()))
